@@ -566,7 +566,7 @@ func gen(g *hx.Gen) {
 	r := g.R
 	now := uint64(time.Now().Unix())
 	w := newWorld(r, now)
-	nFiles := g.Count(2000, 100000)
+	nFiles := g.Count(1500, 40000)
 	for i := 0; i < nFiles; i++ {
 		maxLines, mal := 20, 1
 		if i%5 == 4 { // malformed stream: short files, frequent bad lines
@@ -580,7 +580,7 @@ func gen(g *hx.Gen) {
 		g.Emit("kh now=%d file=%s kt=%s certs=%s q=%s", now, hx.Hex(file), ktStr(t), certs, q)
 	}
 	// Line / HashHostname round trips and outputs
-	nAux := g.Count(1000, 50000)
+	nAux := g.Count(800, 20000)
 	for i := 0; i < nAux; i++ {
 		k := hx.Pick(r, w.keys).pub
 		t := newIDs()
@@ -617,7 +617,7 @@ func gen(g *hx.Gen) {
 		}
 	}
 	// stand-in validation: SplitHostPort / Normalize / base64
-	nStd := g.Count(3000, 200000)
+	nStd := g.Count(2400, 100000)
 	for i := 0; i < nStd; i++ {
 		switch i % 3 {
 		case 0:
